@@ -1,5 +1,6 @@
 import RedisEmu.Exec
 import RedisEmu.Props.C01
+import RedisEmu.Proofs.AList
 import Mathlib.Tactic.SplitIfs
 /-
   C13 — no client input can crash the process, and every well-formed command gets one reply.
@@ -116,5 +117,216 @@ theorem setbit_no_crash : (cmdSetBit c db k i j).crash = none := by
       simp only
       split <;> exact this
 end
+
+/-! ### from the single commands to everything a connection can send -/
+
+
+
+theorem raw_del_ne (db : Db) (k k' : Bytes) (h : (k == k') = false) : (db.del k).raw k' = db.raw k' := by
+  unfold Db.del
+  cases hr : db.raw k with
+  | none => rfl
+  | some e => simp only [Db.raw]; exact alookup_aerase_ne k k' db.keys h
+
+theorem raw_poke_ne (db : Db) (k k' : Bytes) (e : Entry) (h : (k == k') = false) : (db.poke k e).raw k' = db.raw k' := by
+  simp only [Db.poke, Db.raw]; exact alookup_ainsert_ne k k' e db.keys h
+
+theorem raw_setDirty (db : Db) (k' : Bytes) : db.setDirty.raw k' = db.raw k' := rfl
+
+theorem raw_update_ne (db : Db) (k k' : Bytes) (e : Entry) (v : Val) (h : (k == k') = false) :
+    (db.update k e v).raw k' = db.raw k' := by
+  unfold Db.update
+  simp only
+  split_ifs
+  · rw [raw_setDirty]; exact raw_del_ne db k k' h
+  · rw [raw_setDirty]; exact raw_poke_ne db k k' _ h
+
+theorem raw_upd_ne (c : Ctx) (db : Db) (k k' : Bytes) (e : Entry) (v : Val) (h : (k == k') = false) :
+    (upd c db k e v).raw k' = db.raw k' := by
+  unfold upd bump
+  split_ifs
+  · exact raw_update_ne _ k k' _ v h
+  · rw [raw_update_ne _ k k' _ v h]; rfl
+
+
+theorem listOf_some_raw (c : Ctx) (db : Db) (k : Bytes) (e : Entry) (l : List Bytes)
+    (h : listOf c db k = .ok (some (e, l))) : ∃ e', db.raw k = some e' := by
+  unfold listOf Db.live at h
+  cases hr : db.raw k with
+  | none => rw [hr] at h; simp at h
+  | some e' => exact ⟨e', rfl⟩
+
+theorem lmove_no_crash (c : Ctx) (db : Db) (src dst : Bytes) (sl dl : Bool) :
+    (cmdLMove c db src dst sl dl).crash = none := by
+  unfold cmdLMove
+  split
+  · rfl
+  · rfl
+  · split
+    · rfl
+    · rename_i se slist _ dstInfo hdst
+      simp only
+      split
+      · rfl
+      · rename_i x hx
+        by_cases heq : (src == dst) = true
+        · simp only [heq, if_true]
+          split_ifs <;> rfl
+        · -- src ≠ dst: the destination is there after the source was updated
+          have hne : (src == dst) = false := by simpa using heq
+          simp only [hne, Bool.false_eq_true, if_false]
+          split
+          · rfl
+          · rename_i hnone
+            exfalso
+            rw [raw_upd_ne c _ src dst _ _ hne] at hnone
+            cases dstInfo with
+            | none => simp [Db.put, Db.raw] at hnone
+            | some p =>
+              obtain ⟨e', he'⟩ := listOf_some_raw c db dst p.1 p.2 (by cases p; exact hdst)
+              simp only at hnone
+              rw [he'] at hnone; cases hnone
+
+
+theorem lmpop_go_no_crash (c : Ctx) (db : Db) (left : Bool) (count : Nat) (ks : List Bytes) :
+    (cmdLMPop.go c db left count ks).crash = none := by
+  induction ks with
+  | nil => rfl
+  | cons k r ih =>
+    unfold cmdLMPop.go
+    split
+    · rfl
+    · exact ih
+    · split_ifs
+      · exact ih
+      · rfl
+      · rfl
+
+theorem lmpop_no_crash (c : Ctx) (db : Db) (ks : List Bytes) (left : Bool) (count : Nat) :
+    (cmdLMPop c db ks left count).crash = none := by
+  unfold cmdLMPop; exact lmpop_go_no_crash c db left count ks
+
+theorem bpop_go_no_crash (c : Ctx) (db : Db) (left : Bool) (ks : List Bytes) :
+    (runCmd.go c left db ks).crash = none := by
+  induction ks with
+  | nil => rfl
+  | cons k r ih =>
+    unfold runCmd.go
+    split
+    · rfl
+    · exact ih
+    · split
+      · exact ih
+      · rfl
+
+theorem bitcount_no_crash (c : Ctx) (db : Db) (k : Bytes) (range : Option (Int × Int × Bool))
+    (hq : c.q.bitcountEmptyCrash = false) : (cmdBitCount c db k range).crash = none := by
+  unfold cmdBitCount
+  split
+  · rfl
+  · split_ifs with h1 h2
+    · rfl
+    · rw [hq] at h2; cases h2
+    · extract_lets
+      split_ifs <;> rfl
+  · rfl
+
+/-- **No command of the model has a crash outcome**: for every parsed command, every argument value,
+    every database content and session state (with the quirk that modelled the repaired BITCOUNT panic off) -/
+theorem runCmd_no_crash (c : Ctx) (s : State) (conn ref : Nat) (m : Bool) (cmd : Cmd)
+    (hq : c.q.bitcountEmptyCrash = false) :
+    (runCmd c s conn ref m cmd).crash = none := by
+  cases cmd
+  case copy a b rep dbOpt =>
+    simp only [runCmd]
+    split_ifs
+    · rfl
+    · simp only [onDb, copy_no_crash]
+  case bitcount k r => simp only [runCmd, onDb]; exact bitcount_no_crash c _ k r hq
+  case ping mm => cases mm <;> rfl
+  case lmpop nk ks l cnt =>
+    simp only [runCmd]
+    split_ifs
+    · rfl
+    · rfl
+    · simp only [onDb]; exact lmpop_no_crash _ _ _ _ _
+  all_goals
+    simp only [runCmd, onDb] <;>
+    first
+    | rfl
+    | simp only [set_no_crash, append_no_crash, get_no_crash, getdel_no_crash, getex_no_crash, strlen_no_crash,
+        getrange_no_crash, setrange_no_crash, incrby_no_crash, decrby_no_crash, mget_no_crash, mset_no_crash,
+        incrbyfloat_no_crash, push_no_crash, pop_no_crash, llen_no_crash, lindex_no_crash, lrange_no_crash,
+        lset_no_crash, linsert_no_crash, lrem_no_crash, ltrim_no_crash, lpos_no_crash, hset_no_crash, hget_no_crash,
+        hmget_no_crash, hgetall_no_crash, hkeys_no_crash, hlen_no_crash, hexists_no_crash, hstrlen_no_crash,
+        hdel_no_crash, hincrby_no_crash, hincrbyfloat_no_crash, sadd_no_crash, srem_no_crash, scard_no_crash,
+        sismember_no_crash, smismember_no_crash, smembers_no_crash, smove_no_crash, setalgebra_no_crash,
+        setalgebrastore_no_crash, sintercard_no_crash, del_no_crash, exists_no_crash, type_no_crash, rename_no_crash,
+        expireat_no_crash, persist_no_crash, ttl_no_crash, getbit_no_crash, bitpos_no_crash,
+        bitop_no_crash, bitfield_no_crash, setbit_no_crash, lmove_no_crash, bpop_go_no_crash]
+    | (no_crash; done)
+
+theorem execQueue_no_crash (conn : Nat) (q : List Queued) :
+    ∀ (c : Ctx) (impls : List Value) (s : State) (vs : List Value) (hs : List Match) (ps : List (Nat × Bytes × Nat)),
+      c.q.bitcountEmptyCrash = false →
+      (execQueue c conn q impls s vs hs ps).2.2.2.2 = none := by
+  induction q with
+  | nil => intro c impls s vs hs ps _; simp [execQueue]
+  | cons x r ih =>
+    intro c impls s vs hs ps hq
+    unfold execQueue
+    cases ha : x.argv with
+    | nil => simp only; exact ih c impls s vs hs ps hq
+    | cons name args =>
+      simp only
+      split_ifs
+      · exact ih _ _ _ _ _ _ hq
+      · cases hp : parseCmd name args with
+        | none => simp only; exact ih _ _ _ _ _ _ hq
+        | some cmd =>
+          simp only
+          have hnc := runCmd_no_crash { c with now := c.now + 1000, impl := impls.head? } s conn x.dbRef true cmd hq
+          simp only [hnc]
+          exact ih _ _ _ _ _ _ hq
+
+theorem dispatchParsed_no_crash (c : Ctx) (s : State) (conn : Nat) (argv : List Bytes) (cmd : Cmd)
+    (hq : c.q.bitcountEmptyCrash = false) :
+    (dispatchParsed c s conn argv cmd).crash = none := by
+  unfold dispatchParsed
+  simp only
+  cases hqq : (s.session conn).queue with
+  | none =>
+    simp only
+    cases cmd <;> first | rfl | (simp only []; exact runCmd_no_crash c s conn _ false _ hq)
+  | some q =>
+    simp only
+    by_cases hctl : cmd.isControl = true
+    · simp only [hctl, Bool.not_true, Bool.false_eq_true, if_false]
+      cases cmd <;> (try (simp [Cmd.isControl] at hctl; done)) <;> simp only []
+      all_goals first
+        | rfl
+        | exact runCmd_no_crash c s conn _ true _ hq
+        | (have hx := execQueue_no_crash conn q c (implElems c) s [] [] [] hq
+           generalize execQueue c conn q (implElems c) s [] [] [] = r at hx
+           obtain ⟨s1, vs, hs, ps, crash⟩ := r
+           simp only at hx
+           subst hx
+           split_ifs <;> rfl)
+    · have : cmd.isControl = false := by simpa using hctl
+      simp [this]
+
+/-- **Whatever a client sends as a command, in whatever session state, the model has no crash outcome**
+    (unknown commands, wrong arity, every option combination on every key type, inside or outside
+    MULTI, including everything EXEC runs) -/
+theorem dispatch_no_crash (c : Ctx) (s : State) (conn : Nat) (argv : List Bytes)
+    (hq : c.q.bitcountEmptyCrash = false) :
+    (dispatch c s conn argv).crash = none := by
+  unfold dispatch
+  cases argv with
+  | nil => rfl
+  | cons name args =>
+    simp only
+    repeat' (first | rfl | split)
+    all_goals (first | rfl | exact dispatchParsed_no_crash c s conn _ _ hq)
 
 end RedisEmu
